@@ -126,7 +126,9 @@ def run(ctx):
                 all(s.args[1].get('k', {}).get('v') is False for s in ss):
             ctx.ok('SYNC-C03a', eb, 'end_batch: flush succeeds before skip_sync is cleared', line=fl[0].line)
         else:
-            ctx.bad('SYNC-C03a', eb, 'end_batch does not flush before clearing skip_sync', detail='end-batch-order')
+            why = 'never restores per-append fsync (set_skip_sync(false) missing)' if not ss else (
+                'does not flush' if not fl else 'does not flush successfully before clearing skip_sync')
+            ctx.bad('SYNC-C03a', eb, 'end_batch ' + why, detail='end-batch-order')
         fwal = F.fn('EmbeddedWal::flush')
         if fwal is not None and ts.summ.get(fwal.path, (1, 1))[UNSYNCED] == CLEAN:
             ctx.ok('SYNC-C03a', fwal, 'EmbeddedWal::flush is a sync')
